@@ -5,7 +5,7 @@ from vmon import real
 
 def plan(tier, seed):
     n = 8 if tier == 'quick' else 60
-    return [{'lane': 'real', 'seed': seed * 1000 + i, 'timeout': 150} for i in range(n)]
+    return [{'lane': 'real', 'seed': seed * 1000 + i, 'timeout': 240} for i in range(n)]
 
 
 def gen(rng):
